@@ -108,6 +108,13 @@ theorem storeOp_other (T : Transport) (cl : Cluster) (c : Nat) (nowS : Time) (k 
       cases hs : cl.servers[shard cl.servers.length k]? <;>
         simp [Cluster.setServer, Cluster.setL1, Ne.symm hi, hs]
 
+theorem fetchOp_out (T : Transport) (cl : Cluster) (c : Nat) (nowC nowS : Time) (k : Key) (t : Bool) :
+    (fetchOp T cl c nowC nowS k t).2 = .miss ∨ ∃ v ts d g, (fetchOp T cl c nowC nowS k t).2 = .hit v ts d g := by
+  unfold fetchOp
+  simp only
+  repeat' split
+  all_goals simp
+
 /-! ### histories from the empty cluster -/
 
 /-- sizes of every operation of the history fit the header fields -/
